@@ -82,6 +82,11 @@ class ResurrectorSink(ClientMessageSink):
       try:
         self._varz.reconnect_attempts()
         sink.Open().get()
+        if not self._down_on:
+          # Closed while the result of the attempt was on its way to this
+          # greenlet (the kill had not reached it yet): abandon the new sink.
+          sink.Close()
+          return
         sink.on_faulted.Subscribe(self._OnSinkFaulted)
         self.next_sink = sink
         self._down_on = None
